@@ -50,7 +50,8 @@ let handle (toks : string list) : (string * string * string) option =
      | "arith", (pt :: form :: p :: nk :: n :: rest) ->
        let wrapk = (match rest with [w] -> w | _ -> "plain") in
        let stride = sizeof (lab cfg) (ptee_of_string pt) in
-       let f = form_of_string form and p = zs p and n = zs n and nk = kind_of_string nk in
+       (* "radd" (number + pointer) is the pointer's own operator+ with the operands exchanged (fix: commit for D16) *)
+       let f = form_of_string (if form = "radd" then "add" else form) and p = zs p and n = zs n and nk = kind_of_string nk in
        (* a tainted_volatile operand is first stored to / loaded from a guest cell of its kind *)
        let pre = (if wrapk = "tvol" then
                     (match to_sbx (lab cfg).l_int nk n with
